@@ -81,6 +81,11 @@ def _file(item):
             bad(f"C10|safe-iff-no-findings|{n}", f"severity {s} with {len(res.results)} findings")
         if s != EXPECTED[n]:
             bad(f"C10|shape-verdict|{n}", f"shape {n} expected {EXPECTED[n]} got {s}")
+        if bool(res) != (s == "LIKELY_SAFE"):
+            bad(f"C10|bool-of-results|{n}", f"bool(results) is {bool(res)} for severity {s}")
+        for r in res.results:
+            if bool(r) != (r.severity.name == "LIKELY_SAFE"):
+                bad(f"C10|bool-of-finding|{n}", f"bool(finding) is {bool(r)} for a {r.severity.name} finding")
         if res.to_dict()["severity"] != s:
             bad(f"C10|to_dict-severity|{n}", f"to_dict severity {res.to_dict()['severity']} != {s}")
     # boolean query looks at the first pickle
